@@ -1,6 +1,7 @@
 CONSTANTS
   Peer = {1, 2}
   Repo = {1, 2}
+  Persistent = {2}
   Capacity = 1
   QueueMax = 2
   MaxTasks = 3
